@@ -3,6 +3,10 @@ package metric
 // C08 correspondence harness: twin ManualReaders (delta / cumulative) on one MeterProvider, all instrument kinds,
 // default and view-selected aggregations, callbacks replaying the history's observations. Public API only.
 //   twin <gen> <insts> <slots> | rec j a v | obs j a v | reg k | unreg k | cberr | cancelat j | col … => <record> …
+// ovl: for each reader two collections OVERLAP: the first is parked in its first callback while the second is started
+// (on this tree the second blocks on the pipeline lock until the first is done): records as two consecutive cycles, the
+// second replaying the same observations. insts tokens may carry "@m" (meter m of the provider: scope "c08" differing
+// only in version / schema URL / attributes) and "#k" (created with the NAME of instrument k of another meter).
 // cancelat j: the contexts of the next cycle's two collections are cancelled WHILE instrument j is being aggregated
 // (a hook exemplar reservoir installed through the instrument's view — public API — cancels from its Collect).
 // cberr: every callback that runs in the next cycle returns an error AFTER making its observations (the SDK joins such
@@ -68,6 +72,45 @@ type c08Inst struct {
 	sel   byte
 	cb    bool
 	nomm  bool
+	meter int // 0: Meter("c08"); 1: + version; 2: + schema URL; 3: + scope attributes
+	name  int // index of the instrument whose name ("i<k>") this one uses
+}
+
+// per-collection state handed to the callbacks through the context given to Collect
+type c08Gate struct{ parked, release chan struct{} }
+type c08Cycle struct {
+	obs   []c08Obs
+	fail  bool
+	mu    sync.Mutex
+	gate  *c08Gate  // the FIRST callback invocation of the collection parks here
+	first time.Time // when the first callback invocation of the collection started
+}
+type c08CycleKey struct{}
+
+// enter is called at the start of every callback invocation.
+func c08Enter(ctx context.Context) *c08Cycle {
+	cy, _ := ctx.Value(c08CycleKey{}).(*c08Cycle)
+	if cy == nil {
+		return &c08Cycle{}
+	}
+	cy.mu.Lock()
+	var g *c08Gate
+	if cy.first.IsZero() {
+		cy.first = time.Now()
+		g, cy.gate = cy.gate, nil
+	}
+	cy.mu.Unlock()
+	if g != nil {
+		close(g.parked)
+		<-g.release
+	}
+	return cy
+}
+
+type c08Result struct {
+	rm     *metricdata.ResourceMetrics
+	err    error
+	lo, hi time.Time
 }
 
 type c08Obs struct {
@@ -217,6 +260,9 @@ func TestVerifC08Twin(t *testing.T) {
 		}
 		hooks := make([]*c08Hook, len(insts))
 		for j, ic := range insts {
+			if ic.name != j {
+				continue // uses another instrument's name: that name's view (and hook) applies
+			}
 			var agg Aggregation
 			switch ic.sel {
 			case 's':
@@ -242,14 +288,31 @@ func TestVerifC08Twin(t *testing.T) {
 				views = append(views, NewView(Instrument{Name: fmt.Sprintf("i%d", j)}, st))
 			}
 		}
+		for j, ic := range insts {
+			if ic.name != j && ic.name < len(hooks) {
+				hooks[j] = hooks[ic.name]
+			}
+		}
 		mp := NewMeterProvider(WithReader(rd.r), WithReader(rc.r), WithView(views...))
 		defer mp.Shutdown(ctx)
-		m := mp.Meter("c08")
+		// all meters share the scope NAME; they differ only in version / schema URL / scope attributes
+		meters := []metric.Meter{
+			mp.Meter("c08"),
+			mp.Meter("c08", metric.WithInstrumentationVersion("v1")),
+			mp.Meter("c08", metric.WithSchemaURL("https://verif.example/schema/2")),
+			mp.Meter("c08", metric.WithInstrumentationAttributes(attribute.String("meter", "3"))),
+		}
+		byScopeName := map[[2]int]int{}
+		for j, ic := range insts {
+			if _, ok := byScopeName[[2]int{ic.meter, ic.name}]; !ok {
+				byScopeName[[2]int{ic.meter, ic.name}] = j
+			}
+		}
 		var cur []c08Obs
 		cancelAt := -1
 		failNext := false
-		cbErr := func() error {
-			if failNext {
+		cbErr := func(cy *c08Cycle) error {
+			if cy.fail {
 				return errors.New("c08: scripted callback error")
 			}
 			return nil
@@ -260,22 +323,25 @@ func TestVerifC08Twin(t *testing.T) {
 		fobs := make([]metric.Float64Observable, len(insts))
 		for j, ic := range insts {
 			j := j
-			name := fmt.Sprintf("i%d", j)
-			icb := func(_ context.Context, o metric.Int64Observer) error {
-				for _, ob := range cur {
+			name := fmt.Sprintf("i%d", ic.name)
+			m := meters[ic.meter%len(meters)]
+			icb := func(cctx context.Context, o metric.Int64Observer) error {
+				cy := c08Enter(cctx)
+				for _, ob := range cy.obs {
 					if ob.j == j {
 						o.Observe(ob.v, metric.WithAttributeSet(c08Set(ob.a)))
 					}
 				}
-				return cbErr()
+				return cbErr(cy)
 			}
-			fcb := func(_ context.Context, o metric.Float64Observer) error {
-				for _, ob := range cur {
+			fcb := func(cctx context.Context, o metric.Float64Observer) error {
+				cy := c08Enter(cctx)
+				for _, ob := range cy.obs {
 					if ob.j == j {
 						o.Observe(float64(ob.v)/256, metric.WithAttributeSet(c08Set(ob.a)))
 					}
 				}
-				return cbErr()
+				return cbErr(cy)
 			}
 			var iopt []metric.Int64Callback
 			var fopt []metric.Float64Callback
@@ -346,8 +412,9 @@ func TestVerifC08Twin(t *testing.T) {
 			}
 		}
 		// a slot callback tries to observe EVERY observable instrument; only those it was registered for count
-		slotCb := func(_ context.Context, o metric.Observer) error {
-			for _, ob := range cur {
+		slotCb := func(cctx context.Context, o metric.Observer) error {
+			cy := c08Enter(cctx)
+			for _, ob := range cy.obs {
 				if ob.j >= len(insts) {
 					continue
 				}
@@ -357,23 +424,20 @@ func TestVerifC08Twin(t *testing.T) {
 					o.ObserveFloat64(fobs[ob.j], float64(ob.v)/256, metric.WithAttributeSet(c08Set(ob.a)))
 				}
 			}
-			return cbErr()
+			return cbErr(cy)
 		}
-		regs := make([][]metric.Registration, len(slots))
+		regs := make([][][]metric.Registration, len(slots))
 		t1 := time.Now()
 		creation := c08Win{t0, t1}
 		var records []string
 		cycle := 0
-		collect := func(rd *c08Reader) {
-			if fresh {
-				rd.rm = metricdata.ResourceMetrics{}
-			}
-			rm := &rd.rm
-			cctx := ctx
+		// doCollect performs one Collect of rd into rm with the per-collection state cy in the context.
+		doCollect := func(rd *c08Reader, cy *c08Cycle, rm *metricdata.ResourceMetrics, cancelAt int) c08Result {
+			cctx := context.WithValue(ctx, c08CycleKey{}, cy)
 			var cancel func()
-			if withHooks && cancelAt >= 0 && cancelAt < len(hooks) {
+			if withHooks && cancelAt >= 0 && cancelAt < len(hooks) && hooks[cancelAt] != nil {
 				// cancelled from inside the aggregation of instrument cancelAt (if this reader has a point for it)
-				cctx, cancel = context.WithCancel(ctx)
+				cctx, cancel = context.WithCancel(cctx)
 				hooks[cancelAt].set(cancel)
 			}
 			lo := time.Now()
@@ -383,7 +447,18 @@ func TestVerifC08Twin(t *testing.T) {
 				hooks[cancelAt].set(nil)
 				cancel()
 			}
-			rd.wins = append(rd.wins, c08Win{lo, hi})
+			return c08Result{rm, err, lo, hi}
+		}
+		nextRM := func(rd *c08Reader) *metricdata.ResourceMetrics {
+			if fresh {
+				rd.rm = metricdata.ResourceMetrics{}
+			}
+			return &rd.rm
+		}
+		// emit renders the result of the collection of rd that counts as cycle `cycle` (in cycle order per reader).
+		emit := func(rd *c08Reader, cycle int, res c08Result) string {
+			rm, err := res.rm, res.err
+			rd.wins = append(rd.wins, c08Win{res.lo, res.hi})
 			class := func(t time.Time) string {
 				if creation.has(t) {
 					return "c"
@@ -395,21 +470,38 @@ func TestVerifC08Twin(t *testing.T) {
 				}
 				return "x"
 			}
-			var streams []string
+			type numbered struct {
+				j int
+				s string
+			}
+			var streams []numbered
 			hdr := fmt.Sprintf("%d:%s", cycle, rd.tag)
 			if err != nil {
 				// the data returned alongside the error is kept
 				hdr += ":e"
 			}
 			for _, sm := range rm.ScopeMetrics {
+				meter := 0
+				switch {
+				case sm.Scope.Version != "":
+					meter = 1
+				case sm.Scope.SchemaURL != "":
+					meter = 2
+				case sm.Scope.Attributes.Len() > 0:
+					meter = 3
+				}
 				for _, mt := range sm.Metrics {
-					j, _ := strconv.Atoi(strings.TrimPrefix(mt.Name, "i"))
+					nm, _ := strconv.Atoi(strings.TrimPrefix(mt.Name, "i"))
+					j, known := byScopeName[[2]int{meter, nm}]
+					if !known {
+						j = 900 + nm
+					}
 					ty, pts, ok := c08Points[int64](mt.Data)
 					if !ok {
 						ty, pts, ok = c08Points[float64](mt.Data)
 					}
 					if !ok || len(pts) == 0 {
-						streams = append(streams, fmt.Sprintf("%d:?", j))
+						streams = append(streams, numbered{j, fmt.Sprintf("%d:?", j)})
 						continue
 					}
 					sort.SliceStable(pts, func(a, b int) bool { return pts[a].a < pts[b].a })
@@ -436,11 +528,55 @@ func TestVerifC08Twin(t *testing.T) {
 					}
 					le := map[bool]string{true: "1", false: "0"}[!st.After(tm)]
 					rd.prev[j] = c08Prev{cycle, st, tm}
-					streams = append(streams, fmt.Sprintf("%d:%s:%s.%s.%s.%s.%s.%s:%s%s", j, ty, class(st), class(tm), p, f, le, uni, strings.Join(ps, ","), mmField))
+					streams = append(streams, numbered{j, fmt.Sprintf("%d:%s:%s.%s.%s.%s.%s.%s:%s%s", j, ty, class(st), class(tm), p, f, le, uni, strings.Join(ps, ","), mmField)})
 				}
 			}
-			sort.Strings(streams)
-			records = append(records, strings.Join(append([]string{hdr}, streams...), ";"))
+			sort.SliceStable(streams, func(a, b int) bool { return streams[a].j < streams[b].j })
+			parts := []string{hdr}
+			for _, st := range streams {
+				parts = append(parts, st.s)
+			}
+			return strings.Join(parts, ";")
+		}
+		// overlap performs two collections of ONE reader that overlap in time: A is parked in its first callback, B is
+		// started meanwhile. On this tree B blocks on the pipeline lock until A is done, whatever the machine load; if B
+		// finished while A was still parked the collections of one reader are not serialised (the records then show it).
+		overlap := func(rd *c08Reader) (c08Result, c08Result) {
+			g := &c08Gate{make(chan struct{}), make(chan struct{})}
+			cyA := &c08Cycle{obs: cur, fail: failNext, gate: g}
+			cyB := &c08Cycle{obs: cur}
+			rmA, rmB := nextRM(rd), &metricdata.ResourceMetrics{}
+			doneA, doneB := make(chan c08Result, 1), make(chan c08Result, 1)
+			ca := cancelAt
+			go func() { doneA <- doCollect(rd, cyA, rmA, ca) }()
+			var resA, resB c08Result
+			select {
+			case <-g.parked:
+				go func() { doneB <- doCollect(rd, cyB, rmB, -1) }()
+				gotB := false
+				select {
+				case resB = <-doneB:
+					gotB = true
+				case <-time.After(2 * time.Millisecond):
+				}
+				close(g.release)
+				resA = <-doneA
+				if !gotB {
+					resB = <-doneB
+				}
+				// the two wall-clock windows overlap; B's callbacks start after A released the lock and before B
+				// aggregates: split the windows there
+				cyB.mu.Lock()
+				mid := cyB.first
+				cyB.mu.Unlock()
+				if !mid.IsZero() && !gotB {
+					resA.hi, resB.lo = mid, mid
+				}
+			case resA = <-doneA:
+				// no callback exists in this pipeline: nothing to park in, the two collections are sequential
+				resB = doCollect(rd, cyB, rmB, -1)
+			}
+			return resA, resB
 		}
 		atoi := func(x string) int { n, _ := strconv.Atoi(x); return n }
 		for _, op := range ops {
@@ -463,16 +599,32 @@ func TestVerifC08Twin(t *testing.T) {
 							os = append(os, fobs[j])
 						}
 					}
-					reg, err := m.RegisterCallback(slotCb, os...)
-					if err == nil && reg != nil {
-						regs[k] = append(regs[k], reg)
-					} else {
-						regs[k] = append(regs[k], nil)
+					// one registration per meter (RegisterCallback only accepts the meter's own instruments)
+					var group []metric.Registration
+					for mi, mtr := range meters {
+						var mine []metric.Observable
+						for _, j := range slots[k] {
+							if j < len(insts) && insts[j].meter%len(meters) == mi {
+								if iobs[j] != nil {
+									mine = append(mine, iobs[j])
+								} else if fobs[j] != nil {
+									mine = append(mine, fobs[j])
+								}
+							}
+						}
+						if len(mine) == 0 {
+							continue
+						}
+						if reg, err := mtr.RegisterCallback(slotCb, mine...); err == nil && reg != nil {
+							group = append(group, reg)
+						}
 					}
+					_ = os
+					regs[k] = append(regs[k], group)
 				}
 			case "unreg":
 				if k := atoi(op[1]); k < len(slots) && len(regs[k]) > 0 {
-					if reg := regs[k][len(regs[k])-1]; reg != nil {
+					for _, reg := range regs[k][len(regs[k])-1] {
 						_ = reg.Unregister()
 					}
 					regs[k] = regs[k][:len(regs[k])-1]
@@ -482,12 +634,22 @@ func TestVerifC08Twin(t *testing.T) {
 			case "cancelat":
 				cancelAt = atoi(op[1])
 			case "col":
-				collect(rd)
-				collect(rc)
+				for _, rdr := range []*c08Reader{rd, rc} {
+					res := doCollect(rdr, &c08Cycle{obs: cur, fail: failNext}, nextRM(rdr), cancelAt)
+					records = append(records, emit(rdr, cycle, res))
+				}
 				cur = nil
 				failNext = false
 				cancelAt = -1
 				cycle++
+			case "ovl":
+				dA, dB := overlap(rd)
+				cA, cB := overlap(rc)
+				records = append(records, emit(rd, cycle, dA), emit(rc, cycle, cA), emit(rd, cycle+1, dB), emit(rc, cycle+1, cB))
+				cur = nil
+				failNext = false
+				cancelAt = -1
+				cycle += 2
 			}
 		}
 		var sb strings.Builder
@@ -500,7 +662,15 @@ func TestVerifC08Twin(t *testing.T) {
 	parse := func(istr, sstr string) ([]c08Inst, [][]int) {
 		var insts []c08Inst
 		for _, s := range strings.Split(istr, ",") {
-			insts = append(insts, c08Inst{float: s[0] == 'f', kind: s[1], sel: s[2], cb: s[3] == '1', nomm: len(s) > 4 && s[4] == 'n'})
+			ic := c08Inst{float: s[0] == 'f', kind: s[1], sel: s[2], cb: s[3] == '1', nomm: len(s) > 4 && s[4] == 'n', name: len(insts)}
+			if k := strings.Index(s, "#"); k > 0 {
+				ic.name, _ = strconv.Atoi(s[k+1:])
+				s = s[:k]
+			}
+			if k := strings.Index(s, "@"); k > 0 {
+				ic.meter, _ = strconv.Atoi(s[k+1:])
+			}
+			insts = append(insts, ic)
 		}
 		var slots [][]int
 		if sstr != "-" {
@@ -552,6 +722,8 @@ func TestVerifC08Twin(t *testing.T) {
 		signmix := strings.HasPrefix(gen, "signmix")
 		cberrGen := strings.HasPrefix(gen, "cberr")
 		cancelGen := strings.HasPrefix(gen, "cancel") // collections cancelled in the middle of the aggregation loop
+		metersGen := strings.HasPrefix(gen, "meters") // several meters whose scopes differ only in version / schema URL / attributes
+		ovlGen := strings.HasPrefix(gen, "ovl")       // overlapping collections of the same reader
 		for j := 0; j < ni; j++ {
 			kind := "cuhgCUGCUG"[r.Intn(10)]
 			sels := compat[kind]
@@ -567,14 +739,18 @@ func TestVerifC08Twin(t *testing.T) {
 				kind = "hhcugCG"[r.Intn(7)]
 				sel = "xxxe"[r.Intn(4)]
 			}
-			if cberrGen && j == 0 {
+			if (cberrGen || ovlGen) && j == 0 {
 				kind = "CUG"[r.Intn(3)] // at least one observable instrument
 				sel = compat[kind][r.Intn(4)]
+			}
+			if metersGen && r.Intn(4) != 0 {
+				kind = "CUG"[r.Intn(3)]
+				sel = compat[kind][r.Intn(len(compat[kind]))]
 			}
 			cb := "0"
 			if kind >= 'A' && kind <= 'Z' {
 				async = append(async, j)
-				if r.Intn(3) == 0 || (cberrGen && j == 0 && r.Bool()) {
+				if r.Intn(3) == 0 || (cberrGen && j == 0 && r.Bool()) || (ovlGen && j == 0) {
 					cb = "1"
 				}
 			}
@@ -584,17 +760,49 @@ func TestVerifC08Twin(t *testing.T) {
 			}
 			is = append(is, string([]byte{"if"[r.Intn(2)], kind, sel})+cb+nomm)
 		}
+		meterOf := map[int]int{}
+		if metersGen {
+			// the same instrument (name, kind, number type, aggregation) created again by other meters of the provider
+			base := len(is)
+			for j := 0; j < base && len(is) < 9; j++ {
+				start := r.Intn(3)
+				for c := 0; c < 2 && len(is) < 9; c++ {
+					if r.Intn(2) == 0 {
+						continue
+					}
+					tok := is[j]
+					cb := tok[3:4]
+					if tok[1] >= 'A' && tok[1] <= 'Z' {
+						cb = "01"[r.Intn(2):][:1]
+						async = append(async, len(is))
+					}
+					mt := 1 + (start+c)%3 // every copy in a different meter
+					meterOf[len(is)] = mt
+					is = append(is, tok[:3]+cb+tok[4:]+"@"+strconv.Itoa(mt)+"#"+strconv.Itoa(j))
+				}
+			}
+			ni = len(is)
+		}
 		var ss []string
 		ns := r.Intn(4)
+		if metersGen {
+			ns = 1 + r.Intn(4)
+		}
 		for k := 0; k < ns && len(async) > 0; k++ {
+			// a RegisterCallback registration belongs to ONE meter: instruments of the meter of a random one
+			mt := meterOf[async[r.Intn(len(async))]]
 			s := ""
+			var same []int
 			for _, j := range async {
-				if r.Intn(2) == 0 {
-					s += strconv.Itoa(j)
+				if meterOf[j] == mt {
+					same = append(same, j)
+					if r.Intn(2) == 0 {
+						s += strconv.Itoa(j)
+					}
 				}
 			}
 			if s == "" {
-				s = strconv.Itoa(async[r.Intn(len(async))])
+				s = strconv.Itoa(same[r.Intn(len(same))])
 			}
 			ss = append(ss, s)
 		}
@@ -655,6 +863,10 @@ func TestVerifC08Twin(t *testing.T) {
 			if y := r.Intn(100); y < 3 || (cberrGen && y < 12) {
 				ops = append(ops, []string{"cberr"})
 				continue
+			} else if ovlGen && y >= 93 {
+				ops = append(ops, []string{"ovl"})
+				newMode()
+				continue
 			} else if cancelGen && y >= 90 {
 				ops = append(ops, []string{"cancelat", strconv.Itoa(r.Intn(ni))}, []string{"col"})
 				newMode()
@@ -691,6 +903,10 @@ func TestVerifC08Twin(t *testing.T) {
 			gen = "cberr" // failing callbacks
 		case 3, 4:
 			gen = "cancel" // contexts cancelled while an instrument is aggregated
+		case 5:
+			gen = "meters" // several meters, same scope name, same instruments
+		case 6:
+			gen = "ovl" // overlapping collections of the same reader
 		}
 		if r.Intn(5) == 0 {
 			gen += "+fresh"
